@@ -134,8 +134,20 @@ def two_function_file(b, order, form, where):
     return b.source_unit([pr] + (parts if order == 'writer_first' else parts[::-1]))
 
 
+def ctor_sequence_file(b, order):
+    """one constructor that assigns a string-typed, an abi-encoded and two value-typed state variables, in the given order"""
+    vs = {'s': ('string', b.string('registry')), 'e': ('bytes', b.call(b.member(b.var('abi'), 'encode'), [b.num(1)])), 'u': ('uint256', b.num(30)),
+          'a': ('address', b.member(b.var('msg'), 'sender')), 'c': ('bytes32', b.call(b.ty('Bytes', 32), [b.var('seed')]))}
+    cparts = [var_def(b, vs[k][0], None, False, 'v_' + k) for k in 'seuac']
+    stmts = [b.expr_stmt(b.bin('Assign', b.var('v_' + k), vs[k][1])) for k in order]
+    cparts.append(b.function('Constructor', None, [b.param(b.ty('Uint', 256), None, 'seed')], [], b.block(stmts)))
+    return b.source_unit([b.pragma('solidity', '0.8.16'), fam.contract_with(b, cparts)])
+
+
 def all_cases(chk):
     out = []
+    for order in ('suac', 'usac', 'uase', 'eu', 'ues', 'aceus', 'su', 'cs'):
+        out.append(('constructor assigns %s in this order' % order, lambda b, o=order: ctor_sequence_file(b, o)))
     for order, form, where in itertools.product(('writer_first', 'reader_first'), ('direct', 'index'), ('same_contract', 'two_contracts', 'free_writer')):
         out.append(('two functions %s %s %s' % (order, form, where), lambda b, a=(order, form, where): two_function_file(b, *a)))
     pos_all = list(fam.STMT_POSITIONS)
@@ -200,7 +212,7 @@ def body(chk):
     n = len(all_cases(chk))
     idx = list(range(n))
     if chk.quick and n > 900:
-        core = [i for i, (l, _) in enumerate(all_cases(chk)) if l.startswith(('two params', 'two functions')) or ('no write, ctor=' in l and l.startswith(('x:ui', 'x:ad', 'x:by', 'x:in')))]
+        core = [i for i, (l, _) in enumerate(all_cases(chk)) if l.startswith(('two params', 'two functions', 'constructor assigns')) or ('no write, ctor=' in l and l.startswith(('x:ui', 'x:ad', 'x:by', 'x:in')))]
         chk.rng.shuffle(idx)
         idx = sorted(set(idx[:900]) | set(core))
     chk.bounds = {'files': '%d of %d x 4 detectors' % (len(idx), n),
